@@ -162,6 +162,35 @@ def reused_conditions(ctx, n):
         if log != want:
             ctx.fail(case, 'a %s condition for the date %r used by %d simulations in a row%s: resumed at %r, expected %r'
                      % (kind, d, runs, ' (each with a nested one)' if nested else '', log, want), family='reused-conditions')
+    # ... and ONE object awaited / used as a guard by several activities of one simulation at the same time
+    for _ in range(max(4, n // 4)):
+        d = rng.choice([2, 3, 5])
+        kind = rng.choice(['after', 'moment'])
+        k = rng.choice([2, 3, 4])
+        forms = [rng.choice(['await', 'until', 'connective']) for _ in range(k)]
+        case = {'shared_condition': kind, 'date': d, 'users': forms}
+        cond = (time >= d) if kind == 'after' else (time == d)
+        log = []
+
+        async def user(i, form):
+            if form == 'until':
+                async with usim.until(cond):
+                    await (time + (d + 10))
+            elif form == 'connective':
+                await (cond & (time >= 1))
+            else:
+                await cond
+            log.append((i, time.now))
+        try:
+            watch.run(*[user(i, f) for i, f in enumerate(forms)])
+        except BaseException as e:   # noqa
+            ctx.fail(case, 'raised %r' % (e,), family='reused-conditions')
+            continue
+        ctx.count(case, nontrivial=True)
+        ctx.bump('family:reused-conditions')
+        if sorted(log) != [(i, d) for i in range(k)]:
+            ctx.fail(case, 'one %s condition for the date %r used by %d activities at once (%r): resumed at %r, expected every one '
+                           'of them at %r' % (kind, d, k, forms, sorted(log), d), family='reused-conditions')
     if many:
         p = subprocess.run([sys.executable, '-m', 'harness.reuse_driver'], input=json.dumps(many), text=True,
                            stdout=subprocess.PIPE, stderr=subprocess.PIPE, timeout=600)
